@@ -666,27 +666,55 @@ def name_verdict(h, v):
         if src and dst:
             by_sn_src = {n["sn"]: d for n, d in zip(*src)}
             by_sn_dst = {n["sn"]: d for n, d in zip(*dst)}
+            ty_src = {n["sn"]: n["ty"] for n in src[0]}
             for sn in v.get("sns", []):
                 a, b = by_sn_src.get(sn), by_sn_dst.get(sn)
                 if a is None or b is None:
                     continue
+                cty = coarse(ty_src.get(sn, ""))
                 for k in sorted(set(a[fld]) | set(b[fld])):
                     if a[fld].get(k, "<absent>") != b[fld].get(k, "<absent>"):
-                        names.setdefault(k, (a[fld].get(k, "<absent>"), b[fld].get(k, "<absent>"), sn))
+                        names.setdefault((k, cty), (a[fld].get(k, "<absent>"), b[fld].get(k, "<absent>"), sn))
         if not names:
             return [(clause, "%s: %s differs on %d node(s), first %s %s" % (call, clause, v["n"], v.get("ty"), v.get("nm")))]
         tyof = {n["sn"]: (n["ty"], n["nm"]) for n in src[0]}
-        return [("%s:%s" % (clause, k), "%s: %s `%s` of %s %s (serial %s): written %s, loaded %s (%d node(s) fail the clause)" % (
+        return [("%s:%s:%s" % (clause, k, cty), "%s: %s `%s` of %s %s (serial %s): written %s, loaded %s (%d node(s) fail the clause)" % (
             call, clause, k, tyof[sn][0], tyof[sn][1], sn, json.dumps(a)[:120], json.dumps(b)[:120], v["n"]))
-            for k, (a, b, sn) in sorted(names.items())]
-    e, g = exp.get(_FIELD.get(clause, ""), None), got.get(_FIELD.get(clause, ""), None)
-    suffix = clause
-    if clause == "LocKind":
-        suffix = "LocKind:%s->%s" % (e, g)
-    elif clause in ("Names", "Types", "Materials", "ChildOrder", "Grids", "GridOwner", "LocValue", "Temperatures", "SortKeys", "Serials"):
-        suffix = "%s:%s" % (clause, coarse(v.get("ty", "")))
-    return [(suffix, "%s: %s of %s %s: written %s, loaded %s (%d node(s))" % (
-        call, clause, v.get("ty"), v.get("nm"), json.dumps(e)[:150], json.dumps(g)[:150], v["n"]))]
+            for (k, cty), (a, b, sn) in sorted(names.items())]
+    # clauses over plain fields: one key per kind of object (and, for locators, per kind of change)
+    src = h.details.get(h.slot_src.get(ev["a"]["s"]))
+    dst = h.details.get("load@%d" % v["at"])
+    fld = _FIELD.get(clause, "")
+    out = {}
+    if src and dst and fld:
+        ns, nd = {n["sn"]: n for n in src[0]}, {n["sn"]: n for n in dst[0]}
+        for sn in v.get("sns", []):
+            a, b = ns.get(sn), nd.get(sn)
+            if a is None or b is None:
+                continue
+            if clause == "LocKind":
+                det = "%s->%s:" % (a["lk"], b["lk"])
+            elif clause == "GridOwner":
+                det = "%s->%s:" % ("none" if a["lg"] == 0 else "grid", "none" if b["lg"] == 0 else "grid")
+            else:
+                det = ""
+            out.setdefault("%s:%s%s" % (clause, det, coarse(a["ty"])), (a, b))
+    if not out:
+        e, g = exp.get(fld, None), got.get(fld, None)
+        return [("%s:%s" % (clause, coarse(v.get("ty", ""))), "%s: %s of %s %s: written %s, loaded %s (%d node(s))" % (
+            call, clause, v.get("ty"), v.get("nm"), json.dumps(e)[:150], json.dumps(g)[:150], v["n"]))]
+    return [(k, "%s: %s of %s %s (serial %s): written %s, loaded %s (%d node(s) fail the clause)" % (
+        call, clause, a["ty"], a["nm"], a["sn"], json.dumps(_show(a, fld, src[0]))[:150], json.dumps(_show(b, fld, dst[0]))[:150], v["n"]))
+        for k, (a, b) in sorted(out.items())]
+
+
+def _show(n, fld, nodes):
+    """children / grid owner by serial number (positions differ between the two projections)"""
+    if fld == "kids":
+        return [nodes[k - 1]["sn"] for k in n["kids"]]
+    if fld == "lg":
+        return nodes[n["lg"] - 1]["sn"] if n["lg"] > 0 else n["lg"]
+    return n[fld]
 
 
 def coarse(ty):
@@ -856,7 +884,12 @@ class GenericAdapter:
                 for clause, fld in (("Types", "ty"), ("Names", "nm"), ("ChildOrder", "kids"), ("LocKind", "lk"),
                                     ("GridOwner", "lg"), ("Materials", "mat"), ("Temperatures", "tmp")):
                     if e[fld] != g[fld]:
-                        suffix = "LocKind:%s->%s" % (e[fld], g[fld]) if clause == "LocKind" else "%s:%s" % (clause, coarse(e["ty"]))
+                        if clause == "LocKind":
+                            suffix = "LocKind:%s->%s:%s" % (e[fld], g[fld], coarse(e["ty"]))
+                        elif clause == "GridOwner":
+                            suffix = "GridOwner:%s->%s:%s" % ("none" if e[fld] == 0 else "grid", "none" if g[fld] == 0 else "grid", coarse(e["ty"]))
+                        else:
+                            suffix = "%s:%s" % (clause, coarse(e["ty"]))
                         out.append(("load:" + suffix, "generic tree: %s of %s: specification %s, loaded %s" % (
                             clause, e["nm"], json.dumps(e[fld]), json.dumps(g[fld]))))
                 if e["lk"] == g["lk"] and e["loc"] != g["loc"]:
@@ -935,7 +968,7 @@ def judge_histories(rep, hs, traces, plan):
         nverd += 1
         h = hs[v["verdict"]]
         for suffix, text in name_verdict(h, v):
-            rep.violation("%s:%s" % (CALL_PREFIX.get(v["call"], v["call"].lower()), suffix),
+            rep.violation("%s:%s@%s" % (CALL_PREFIX.get(v["call"], v["call"].lower()), suffix, h.family),
                           "%s [%s reactor, history %s, event %d; mutations: %s]" % (
                               text, h.family, h.id, v["at"], ", ".join(_hows(h, v["at"]))[:300]),
                           {"direction": "trace", "plan": meta.get(h.id), "verdict": {k: v[k] for k in v if k not in ("exp", "got")},
@@ -943,10 +976,10 @@ def judge_histories(rep, hs, traces, plan):
     for h in hs.values():
         for n in h.notes:
             if n == "write-changed-original":
-                rep.violation("write:changes-original", "Database.writeToDB changed the reactor it wrote (%s, history %s)" % (h.family, h.id),
+                rep.violation("write:changes-original@%s" % h.family, "Database.writeToDB changed the reactor it wrote (%s, history %s)" % (h.family, h.id),
                               {"direction": "trace", "plan": meta.get(h.id)})
             else:
-                rep.violation("load:non-integral-index", "%s (%s, history %s)" % (n, h.family, h.id), {"direction": "trace", "plan": meta.get(h.id)})
+                rep.violation("load:non-integral-index@%s" % h.family, "%s (%s, history %s)" % (n, h.family, h.id), {"direction": "trace", "plan": meta.get(h.id)})
     return nverd
 
 
@@ -1010,7 +1043,7 @@ def run(rep, tier, seed):
 
             diffs = [("generic:exception:" + type(ex).__name__, "real code raised on a legal tree: %s" % traceback.format_exc()[-600:])]
         for k, text in diffs:
-            rep.violation(k, text, {"direction": "generic", "case": c})
+            rep.violation(k + "@generic", text, {"direction": "generic", "case": c})
     rep.add_replay("generic-trees", len(sample), nontrivial,
                    "every tree TLC enumerates (Layout_emit) is built from real Reactor/Composite/Circle objects, written with "
                    "Database.writeToDB to an in-memory HDF5 file, layout/* compared with FileObs(Flatten(t)), loaded with Database.load and "
